@@ -140,6 +140,9 @@ def run(sess: Session):
         except Unsupported as exc:
             sess.unsupported(f'C01:{part}', str(exc))
     bounded_checks(sess)
+    # 'no character of any stored string is altered': what the loader does to element text (shared with C20)
+    from contracts import C20 as _c20
+    _c20.normalize_space_bounded(sess)
     sess.note('composition of 1-3 into the per-observable statements of the property is hand-argued (DESIGN §5 C01.4)')
 
 
